@@ -118,17 +118,19 @@ func readEvents(path string) ([]Event, error) {
 
 	const maxEventLineBytes = 10 * 1024 * 1024
 
-	endsWithNewline := false
-	if info, err := file.Stat(); err == nil && info.Size() > 0 {
-		last := make([]byte, 1)
-		if _, err := file.ReadAt(last, info.Size()-1); err == nil {
-			endsWithNewline = last[0] == '\n'
-		}
-	}
-
+	// Whether the data ends in a newline is learned from the scan itself, not
+	// from a separate look at the file: a writer may be appending while we
+	// read, and the two views could disagree.
+	endsWithNewline := true
 	var events []Event
 	scanner := bufio.NewScanner(file)
 	scanner.Buffer(make([]byte, 0, 64*1024), maxEventLineBytes)
+	scanner.Split(func(data []byte, atEOF bool) (int, []byte, error) {
+		if atEOF && len(data) > 0 && bytes.IndexByte(data, '\n') < 0 {
+			endsWithNewline = false
+		}
+		return bufio.ScanLines(data, atEOF)
+	})
 	var pending []byte
 	pendingNo := 0
 	currentNo := 0
